@@ -710,7 +710,7 @@ impl rustc_driver::Callbacks for FactsCallbacks {
         for did in trait_ids {
             let mut items = Vec::new();
             for it in tcx.associated_items(did).in_definition_order() {
-                items.push(obj! {"name" => jstr(it.name().to_string()), "id" => jstr(cx.path(it.def_id)),
+                items.push(obj! {"name" => jstr(it.opt_name().map(|n| n.to_string()).unwrap_or_else(|| "{opaque}".to_string())), "id" => jstr(cx.path(it.def_id)),
                                  "kind" => jstr(format!("{:?}", tcx.def_kind(it.def_id))),
                                  "has_default" => J::Bool(it.defaultness(tcx).has_value())});
             }
@@ -740,6 +740,16 @@ impl rustc_driver::Callbacks for FactsCallbacks {
                 for ci in citems.iter() {
                     if let Some(&iid) = map.get(ci) {
                         if let Ok(ConstValue::Scalar(Scalar::Int(si))) = tcx.const_eval_poly(iid) {
+                            impl_consts.push(obj! {"trait_item" => jstr(cx.path(*ci)), "name" => jstr(tcx.item_name(*ci).to_string()),
+                                "self_ty" => cx.ty(self_ty), "val" => jnum(si.to_bits_unchecked())});
+                        }
+                    } else if tcx.defaultness(*ci).has_value() && tcx.generics_of(tdid).count() == 1 {
+                        // the impl inherits the trait's default value: evaluate it for this Self
+                        let args = tcx.mk_args(&[self_ty.into()]);
+                        let uv = rustc_middle::mir::UnevaluatedConst { def: *ci, args, promoted: None };
+                        if let Ok(ConstValue::Scalar(Scalar::Int(si))) =
+                            tcx.const_eval_resolve(ty::TypingEnv::fully_monomorphized(), uv, rustc_span::DUMMY_SP)
+                        {
                             impl_consts.push(obj! {"trait_item" => jstr(cx.path(*ci)), "name" => jstr(tcx.item_name(*ci).to_string()),
                                 "self_ty" => cx.ty(self_ty), "val" => jnum(si.to_bits_unchecked())});
                         }
@@ -837,7 +847,7 @@ fn impl_json<'tcx>(cx: &mut Cx<'tcx>, did: DefId) -> J {
     let mut items = Vec::new();
     for it in tcx.associated_items(did).in_definition_order() {
         let mut io = vec![
-            ("name".to_string(), jstr(it.name().to_string())),
+            ("name".to_string(), jstr(it.opt_name().map(|n| n.to_string()).unwrap_or_else(|| "{opaque}".to_string()))),
             ("id".to_string(), jstr(cx.path(it.def_id))),
             ("kind".to_string(), jstr(format!("{:?}", tcx.def_kind(it.def_id)))),
         ];
